@@ -8,6 +8,7 @@ import (
 	"os/exec"
 	"path/filepath"
 	"sort"
+	"sync"
 	"strings"
 	"time"
 )
@@ -148,12 +149,34 @@ func maxInt(a, b int) int {
 // crossCheck re-runs each harness transcript through z3 4.8.12 and cvc5 and
 // compares the check-sat verdict sequences.
 func crossCheck(results []*HarnessResult) []string {
-	var notes []string
+	var mu sync.Mutex
+	var all []string
+	var wg sync.WaitGroup
+	sem := make(chan struct{}, 5) // harness transcripts re-run side by side
 	for _, r := range results {
+		wg.Add(1)
+		sem <- struct{}{}
+		go func(r *HarnessResult) {
+			defer wg.Done()
+			defer func() { <-sem }()
+			ns := crossCheckOne(r)
+			mu.Lock()
+			all = append(all, ns...)
+			mu.Unlock()
+		}(r)
+	}
+	wg.Wait()
+	sort.Strings(all)
+	return all
+}
+
+func crossCheckOne(r *HarnessResult) []string {
+	var notes []string
+	{
 		ref, err := verdictsFromSolver([]string{"z3-new", "-in", "-t:30000"}, r.Transcript)
 		if err != nil {
 			notes = append(notes, fmt.Sprintf("xcheck %s: reference rerun failed: %v", r.Info.Name, err))
-			continue
+			return notes
 		}
 		for _, alt := range [][]string{{"z3", "-in", "-t:30000"}, {"cvc5", "--incremental", "--lang=smt2", "--tlimit-per=30000"}} {
 			got, err := verdictsFromSolver(alt, r.Transcript)
@@ -176,8 +199,13 @@ func crossCheck(results []*HarnessResult) []string {
 				}
 			}
 			tag := "agree"
-			if dis > 0 || len(got) != len(ref) {
+			if dis > 0 {
 				tag = "DISAGREE"
+			} else if len(got) != len(ref) {
+				// the other solver stopped early (time limit, or a construct it does not
+				// accept such as z3's fp.to_ieee_bv): no verdict contradicts the primary,
+				// the comparison is just shorter
+				tag = "incomplete"
 			}
 			notes = append(notes, fmt.Sprintf("%s %s vs %s: %d agree, %d disagree, %d unknown (of %d/%d)", tag, r.Info.Name, alt[0], agree, dis, unk, len(got), len(ref)))
 		}
@@ -200,6 +228,10 @@ func verdictsFromSolver(argv []string, transcript string) ([]string, error) {
 	if err := cmd.Start(); err != nil {
 		return nil, err
 	}
+	// a re-run is given ten minutes per solver and transcript; what it has answered
+	// by then is compared (the comparison is then reported as incomplete)
+	budget := time.AfterFunc(10*time.Minute, func() { _ = cmd.Process.Kill() })
+	defer budget.Stop()
 	var vs []string
 	sc := bufio.NewScanner(out)
 	sc.Buffer(make([]byte, 1<<20), 1<<26)
